@@ -37,7 +37,21 @@ LoopPrefix(st) == st.out = Iota(st.pos)                     \* inductive: always
 SizeClasses(B) == {0, 1, B - 1, B, B + 1, 2 * B - 1, 2 * B, 2 * B + 1, 3 * B}
 
 \* ---------------------------------------------------------------------------------------
-\* Type assignment.  A row of the configured tables for a name: [type, enc] with "none" for
+\* The request line.  server.py GopherRequestHandler.handle reads the WHOLE first line
+\* (`self.rfile.readline()`, no limit) before any protocol looks at it, so a regular file is
+\* reachable whatever the length of its path (a path on disk is at most PATH_MAX = 4095 bytes; the
+\* percent-encoded forms of HTTP / WAP / Gemini / Spartan are up to three times as long).
+\* Length classes of the request line, chosen around the caps a bounded reader would plausibly use
+\* (1 KiB, 4 KiB, 5 KiB): p0 short, p1k > 1 KiB raw (> 3 KiB encoded), p2k > 5 KiB encoded,
+\* p4k close to PATH_MAX raw (> 11 KiB encoded).  LineCap = "none" is the code as pinned.
+PLens == {"p0", "p1k", "p2k", "p4k"}
+PLenRank(p) == CASE p = "p0" -> 0 [] p = "p1k" -> 1 [] p = "p2k" -> 2 [] p = "p4k" -> 3
+WholeLine(plen, cap) == cap = "none" \/ PLenRank(plen) < PLenRank(cap)
+
+\* ---------------------------------------------------------------------------------------
+\* Type assignment.  populatefromfs asks the tables (mimetypes.guess_type) for EVERY entry; nothing
+\* is remembered between requests, so the type of a name is a function of the tables and the name
+\* alone - not of the names requested or listed before in the same process (HistoryFree).  A row of the configured tables for a name: [type, enc] with "none" for
 \* "no answer" (mimetypes.guess_type(name, strict=False) after init_mimetypes).
 NoneS == "none"
 DefaultMime == "text/plain"                                  \* [GopherEntry] defaultmimetype (B1)
